@@ -1023,7 +1023,10 @@ def flatten(x:Tensor, start_dim:int=0, end_dim:int=-1) -> 'Tensor':
     if start > end:
         raise RuntimeError("flatten() has invalid args: start_dim cannot come after end_dim")
     if start < end:
-        shape = shape[:start] + (-1,) + shape[end+1:]
+        merged = 1
+        for extent in shape[start:end+1]:
+            merged *= extent
+        shape = shape[:start] + (merged,) + shape[end+1:]
     elif len(shape) == 0:
         shape = (1,)
     
